@@ -18,11 +18,13 @@ package c27
 
 import (
 	"context"
+	"errors"
 	"fmt"
 	"os"
 	"regexp"
 	"sort"
 	"strings"
+	"sync"
 	"time"
 
 	"github.com/els0r/goProbe/v4/cmd/goProbe/config"
@@ -48,7 +50,7 @@ func init() {
 			"`Disable: true` entries are not generated (semantics undocumented)",
 			"for an interface matched by several regular expressions with different parameters the statement only fixes that the choice is deterministic: the oracle demands a parameter set of one of the matching expressions and stability under re-application",
 			"no traffic is delivered while an update is in progress (packets arriving between the final write-out and the close of a capture are outside the statement)",
-			"source initialisation never fails (scripted sources)",
+			"faults are injected only where nothing can be lost: a source initialisation failing once (the interface may stay down until the next update that selects it), and a capture error on a capture that has consumed nothing since it started (goProbe tears the interface down; the next update has to start it again)",
 		},
 		NumCases: func(tier, variant string) int {
 			if variant == "race" {
@@ -64,7 +66,7 @@ func init() {
 		},
 		Variants: func(tier string) []string { return []string{"default", "race"} },
 		Run:      run,
-		Require:  []string{"updates", "reapplications", "regexp_configs", "overlap_same_params", "overlap_diff_params", "autodetect_configs", "param_change_updates", "ifaces_removed_with_traffic", "ifaces_reconfigured_with_traffic", "db_ifaces_compared"},
+		Require:  []string{"updates", "reapplications", "regexp_configs", "overlap_same_params", "overlap_diff_params", "autodetect_configs", "param_change_updates", "ifaces_removed_with_traffic", "ifaces_reconfigured_with_traffic", "db_ifaces_compared", "source_init_failures_injected", "capture_errors_injected"},
 	})
 }
 
@@ -407,8 +409,11 @@ func run(c *fw.Case) {
 		}
 		return o
 	}
-	checkAgainst := func(where string, s *spec, o obs) {
+	checkAgainst := func(where string, s *spec, o obs, failed map[string]bool) {
 		sel := s.selection()
+		for i := range failed {
+			delete(sel, i) // its source could not be initialised during this update: it cannot run yet
+		}
 		if want := names(sel); fmt.Sprint(want) != fmt.Sprint(o.running) {
 			c.Violatef("running_set|"+s.Kind, "%s: configuration %s selects %v but %v are running", where, describe(s), want, o.running)
 			return
@@ -433,10 +438,39 @@ func run(c *fw.Case) {
 
 	cur := first
 	o := observe("after start")
-	checkAgainst("after start", cur, o)
+	checkAgainst("after start", cur, o, nil)
 	nUpd := 3 + r.Intn(10)
 	for u := 0; u < nUpd; u++ {
+		// fault: a capture error on a running interface that has not consumed anything since it was
+		// started (so nothing can be lost): goProbe tears the interface down; the next update that still
+		// selects it has to start it again
+		tornDown := map[string]bool{}
+		if r.Intn(8) == 0 && len(o.running) > 0 {
+			i := o.running[r.Intn(len(o.running))]
+			if s := rig.Source(i); s != nil && sinceStart[i] == 0 {
+				c.Note("capture error injected on %s", i)
+				s.Fail(errors.New("scripted capture error"))
+				gone := false
+				for w := 0; w < 30000 && !gone; w++ { // state-based wait, generous safety net
+					if _, running := rig.Mgr.VerifCaptureConfig(i); !running {
+						gone = true
+					} else {
+						time.Sleep(time.Millisecond)
+					}
+				}
+				if !gone {
+					if os.Getenv("VERIF_DEBUG") != "" {
+						fmt.Fprintln(os.Stderr, rig.Log.String())
+					}
+					c.Inconclusive("interface %s was not taken down within 30 s after a capture error", i)
+					return
+				}
+				tornDown[i] = true
+				c.Count("capture_errors_injected", 1)
+			}
+		}
 		// traffic on the running interfaces
+		o = observe(fmt.Sprintf("before update %d", u))
 		for _, i := range o.running {
 			if r.Intn(4) != 0 {
 				feed(i, 1+r.Intn(120))
@@ -445,17 +479,63 @@ func run(c *fw.Case) {
 		next := genSpec(cur)
 		reps := 1 + r.Intn(4)
 		selNext := next.selection()
+		// fault: the source initialisation of one interface this update has to start fails once
+		failInit := ""
+		if r.Intn(6) == 0 {
+			var cand []string
+			for _, i := range names(selNext) {
+				running := false
+				for _, x := range o.running {
+					if x == i {
+						running = true
+					}
+				}
+				if !running || len(selNext[i]) == 1 && selNext[i][0] != o.cfg[i] {
+					cand = append(cand, i)
+				}
+			}
+			if len(cand) > 0 {
+				failInit = cand[r.Intn(len(cand))]
+				if reps < 2 {
+					reps = 2 // the configuration is applied again after the fault has cleared
+				}
+			}
+		}
+		failedPrev := map[string]bool{}
 		for rep := 0; rep < reps; rep++ {
 			where := fmt.Sprintf("update %d (application %d of %d)", u, rep+1, reps)
 			c.Note("%s: %s", where, describe(next))
 			before := o
+			failedNow := map[string]bool{}
+			if rep == 0 && failInit != "" {
+				once := true
+				var hookMu sync.Mutex // captures are started on separate goroutines
+				rig.SetInitErr(func(iface string) error {
+					hookMu.Lock()
+					defer hookMu.Unlock()
+					if iface == failInit && once {
+						once = false
+						failedNow[iface] = true
+						return errors.New("scripted source initialisation failure")
+					}
+					return nil
+				})
+				where += fmt.Sprintf(" [source init of %s fails once]", failInit)
+			}
 			_, _, _, err := rig.Mgr.Update(ctx, next.config(dbPath))
+			rig.SetInitErr(nil)
 			if err != nil {
 				c.Violatef("update_error|"+next.Kind, "%s: Update(%s) failed: %v", where, describe(next), err)
 				return
 			}
+			if len(failedNow) > 0 {
+				c.Count("source_init_failures_injected", 1)
+			}
+			if len(failedPrev) > 0 || len(tornDown) > 0 {
+				where += fmt.Sprintf(" [after a fault on %v%v has cleared]", names2(failedPrev), names2(tornDown))
+			}
 			o = observe(where)
-			checkAgainst(where, next, o)
+			checkAgainst(where, next, o, failedNow)
 			if rep == 0 {
 				c.Count("updates", 1)
 				switch next.Kind {
@@ -515,6 +595,9 @@ func run(c *fw.Case) {
 				c.Count("reapplications", 1)
 				// identical configuration: nothing may restart, no parameters may change
 				for _, i := range o.running {
+					if failedPrev[i] {
+						continue // could not be started by the previous application: starting it now is the point
+					}
 					if o.nSrc[i] != before.nSrc[i] {
 						c.Violatef("reapply_restarts_capture|"+next.Kind, "%s: re-applying the identical configuration %s restarted the capture of %s (parameters before %+v, after %+v)", where, describe(next), i, before.cfg[i], o.cfg[i])
 					} else if o.cfg[i] != before.cfg[i] {
@@ -522,6 +605,11 @@ func run(c *fw.Case) {
 					}
 				}
 			}
+			for i := range failedNow {
+				sinceStart[i] = 0
+			}
+			failedPrev = failedNow
+			tornDown = map[string]bool{}
 		}
 		cur = next
 	}
@@ -598,4 +686,13 @@ func describe(s *spec) string {
 
 func pstr(p params) string {
 	return fmt.Sprintf("(promisc=%v,vlan=%v,rb=%dx%d,bpf=%d)", p.Promisc, p.IgnoreVLANs, p.Block, p.Num, p.BPF)
+}
+
+func names2(m map[string]bool) []string {
+	var out []string
+	for k := range m {
+		out = append(out, k)
+	}
+	sort.Strings(out)
+	return out
 }
